@@ -337,3 +337,79 @@ Print Assumptions C12_create_translated.
 Print Assumptions C12_get_translated.
 Print Assumptions C12_writeto_translated.
 Print Assumptions C12_bodies_recorded.
+
+(* ---- phase 4: interpretation of Set, the constructors and ReadFrom; headlines over the translation.
+   (C12_bodies_recorded above still pins every body; of its list, Set, PaletteContainer.ReadFrom and
+   singleValuePalette.ReadFrom - and New{States,Biomes}PaletteContainer - now also have interpretation
+   lemmas: Proofs/C12_skel_set.v, Proofs/C12_skel_read.v, Proofs/C12_tr.v) *)
+From GoMC Require Proofs.C12_skel_set Proofs.C12_skel_read Proofs.C12_tr.
+
+(* the translated Set - palette lookup; on a hit the store; on a miss the new container of the next
+   width (config.create, NewBitStorage(config.bits)), the copy loop newContainer.Set(i, p.Get(i)) over
+   every position, the second lookup (panic "not reachable"), the store, *p = newContainer - run with
+   the model's pc_set f for the recursive call IS pc_set (S f): same container, same outcome, on every
+   exit (normal and each panic), for every container, index, id and fuel *)
+Theorem C12_set_translated : forall (sf : prims) f, (forall c i v, p_set sf c i v = pc_set f c i v) ->
+  forall c i v, C12_skel_set.set_result (run sf C12gen.pal_PaletteContainer_Set (VCont c) [VZ i; VZ v])
+                = Some (pc_set (S f) c i v).
+Proof. intros sf f H c i v. rewrite C12_expected.PaletteContainer_Set_skel_ok. apply C12_skel_set.tie_set. exact H. Qed.
+
+(* with the recursive call tied back to the translated Set itself: the translated Set is the model's *)
+Theorem C12_tr_set_is_model : forall f c i v, C12_tr.tr_set f c i v = pc_set f c i v.
+Proof. exact C12_tr.tr_set_is_pc_set. Qed.
+
+(* the translated constructors are pc_new *)
+Theorem C12_new_translated : forall k gs gb n dflt,
+  C12_tr.tr_new k gs gb n dflt = Some (pc_new (mkCfg k (match k with KStates => gs | KBiomes => gb end)) n dflt).
+Proof. exact C12_tr.tr_new_is_pc_new. Qed.
+
+(* the translated PaletteContainer.ReadFrom (bits byte, bits / palette of the configuration, palette
+   read, data read, Fix; every error exit) over the flat input semantics returns what the model's
+   pc_read returns, for every destination container and every input *)
+Theorem C12_readfrom_translated : forall fuel used s, run_flat (pc_read fuel used) s <> FFuel ->
+  C12_tr.tr_read fuel used s = Some (run_flat (pc_read fuel used) s).
+Proof. exact C12_tr.tr_read_is_pc_read. Qed.
+Theorem C12_single_readfrom_translated : forall v0 s,
+  C12_skel_read.read_result (fst (g_recv C12gen.pal_singleValuePalette_ReadFrom))
+    (run_g C12_skel_read.res_env no_set C12gen.pal_singleValuePalette_ReadFrom (VPal (PSingle v0)) [VReader s])
+  = Some (C12_skel_read.map_fres VPal (run_flat (pal_read 0 (PSingle v0)) s)).
+Proof. intros. rewrite C12_expected.singleValuePalette_ReadFrom_skel_ok. apply C12_skel_read.tie_single_read. Qed.
+
+(* HEADLINE 1: a container made by the TRANSLATED constructor and driven by ANY history of the
+   TRANSLATED Set / Get (in-range indices, registry ids) behaves as the array with point update, across
+   every upgrade, for both configurations *)
+Theorem C12_set_get_translated : forall k gs gb n dflt ops,
+  let cf := mkCfg k (match k with KStates => gs | KBiomes => gb end) in
+  wfcfg cf -> 0 <= n -> inreg cf dflt -> Forall (valid_pop cf n) ops ->
+  exists c0, C12_tr.tr_new k gs gb n dflt = Some (ROk c0) /\
+    spec_prun (repeat dflt (Z.to_nat n)) ops = (pabs (fst (C12_tr.tr_run c0 ops)), snd (C12_tr.tr_run c0 ops)) /\
+    Inv (fst (C12_tr.tr_run c0 ops)).
+Proof. exact C12_tr.set_get_translated. Qed.
+
+(* HEADLINE 2: the image the TRANSLATED WriteTo emits, followed by any bytes, read by the TRANSLATED
+   ReadFrom into any container of the same kind and length: the array, the byte count, the rest *)
+Theorem C12_wire_roundtrip_translated : forall c used rest fuel, Inv c -> ccfg used = ccfg c ->
+  blen (cdata used) = blen (cdata c) -> (lenN (data (cdata c)) < 2^31)%N ->
+  (List.length (pal_export (cpal c)) <= fuel)%nat ->
+  exists img c', C12_tr.tr_write c = Some img /\
+                 C12_tr.tr_read fuel used (img ++ rest) = Some (FOk (c', lenN img) rest) /\
+                 Inv c' /\ ccfg c' = ccfg c /\ blen (cdata c') = blen (cdata c) /\ pabs c' = pabs c.
+Proof. exact C12_tr.wire_roundtrip_translated. Qed.
+
+(* the long count is below 2^31 whenever the length is: C12_wire with the bound on the LENGTH *)
+Theorem C12_wire_len : forall c used rest fuel, Inv c -> ccfg used = ccfg c ->
+  blen (cdata used) = blen (cdata c) -> (wf (cdata c) \/ data (cdata c) = []) -> blen (cdata c) < 2 ^ 31 ->
+  (List.length (pal_export (cpal c)) <= fuel)%nat ->
+  exists c', run_flat (pc_read fuel used) (fst (pc_write c) ++ rest) = FOk (c', snd (pc_write c)) rest /\
+    snd (pc_write c) = lenN (fst (pc_write c)) /\ Inv c' /\ ccfg c' = ccfg c /\
+    blen (cdata c') = blen (cdata c) /\ pabs c' = pabs c.
+Proof. exact wire_roundtrip_len. Qed.
+
+Print Assumptions C12_set_translated.
+Print Assumptions C12_tr_set_is_model.
+Print Assumptions C12_new_translated.
+Print Assumptions C12_readfrom_translated.
+Print Assumptions C12_single_readfrom_translated.
+Print Assumptions C12_set_get_translated.
+Print Assumptions C12_wire_roundtrip_translated.
+Print Assumptions C12_wire_len.
